@@ -238,6 +238,7 @@ def run(ctx):
     h = m.func("_facade", "h")
     wiring.shared_mask(ctx, "C02.e", h, "extract_nd_array", 2, 1, ("from_calculate_frequencies",), "h:shared-mask")
     wiring.mask_definition(ctx, "C02.e", m.func("_construction", "extract_nd_array"), "extract_nd_array:mask", rowwise=True)
+    wiring.discarded_mask(ctx, "C02.e", m, only=("_facade.h2", "_facade.h3", "_construction.extract_and_concat_arrays"), floor=1)
 
     # ---- C02.f forwarding ---------------------------------------------------------------------------------------------------
     ctx.rule("C02.f", "h forwards dtype / keep_missed to the histogram; from_calculate_frequencies forwards dtype to the kernel and **kwargs to the class", 3)
